@@ -17,7 +17,7 @@ from .tlc import make_cfg, run_tlc
 TX = odftext.TX
 TAGS = {"span": 'text:span text:style-name="T1"', "a": 'text:a xlink:href="http://example.org/" xlink:type="simple"'}
 MARK_TAGS = {TX + "bookmark", TX + "bookmark-start", TX + "bookmark-end", TX + "reference-mark", TX + "reference-mark-start", TX + "reference-mark-end",
-             "{%s}annotation" % odftext.OFFICE_NS, "{%s}annotation-end" % odftext.OFFICE_NS}     # an annotation is a mark: its own content is not text of the paragraph
+             "{%s}annotation" % odftext.OFFICE_NS, "{%s}annotation-end" % odftext.OFFICE_NS, TX + "note"}     # an annotation is a mark: its own content is not text of the paragraph
 
 
 def tokens_xml(tokens: list) -> str:
@@ -138,16 +138,31 @@ def apply(par, o: dict, tokens: list, variant: int = 0):
     if op == "mark_occurrence":
         rx = re.escape(chars(o["p"]))
         kw = {"before": rx} if o["before"] else {"after": rx}
-        if variant % 2 == 0:
+        if o.get("alone") and variant % 4 == 3:
+            par.insert_annotation(body="remark", creator="verif", position=o["nth"], **kw)
+        elif o.get("alone") and variant % 4 == 2 and not o["before"] and o["nth"] == 0:
+            par.insert_note(after=rx, note_id="note1", citation="1", body="a note")
+        elif variant % 2 == 0:
             par.set_bookmark("bm1", position=o["nth"], **kw)
         else:
             par.set_reference_mark("rm1", position=o["nth"], **kw)
         return par
     if op == "mark_position":
-        if variant % 2 == 0:
+        if o.get("alone") and variant % 3 == 2:
+            par.insert_annotation(body="remark", creator="verif", position=o["pos"])
+        elif variant % 2 == 0:
             par.set_bookmark("bm2", position=o["pos"])
         else:
             par.set_reference_mark("rm2", position=o["pos"])
+        return par
+    if op == "mark_content":
+        rx = re.escape(chars(o["p"]))
+        if variant % 3 == 2 and o.get("alone"):
+            par.insert_annotation(body="remark", creator="verif", content=rx, position=o["nth"])
+        elif variant % 2 == 0:
+            par.set_bookmark("bm4", content=rx, position=o["nth"])
+        else:
+            par.set_reference_mark("rm4", content=rx, position=o["nth"])
         return par
     if op == "mark_range":
         pos = (o["a"], o["b"])
